@@ -29,6 +29,7 @@ type genCfg struct {
 	IllTyped   bool    // assignments over every (current type, assigned type, operator)
 	VisitLine  bool    // node bodies start with a line rendering visited()/visited_count()
 	RichExpr   bool    // deeper expression trees with probes
+	LineConds  float64 // probability that a plain line carries a (fault-free, call-free) line condition
 	IntroNode  bool    // sometimes an extra first node that touches no variable and jumps to the real start
 	MathHeavy  bool    // most number expressions go through the numeric built-ins
 	Reloop     bool    // the start node ends by jumping to itself twice, with the variables changed
@@ -43,7 +44,7 @@ var families = map[string]genCfg{
 	"flow": {Family: "flow", MaxNodes: 3, MaxDepth: 3, MaxStmts: 4, Opts: 3, Ifs: 2, Sets: 2, Jumps: 1.5, Stops: 0.7, Lines: 3,
 		Cmds: 0.7, Calls: 0.5, VisitLine: true, Storer: "recording"},
 	"flowbig": {Family: "flowbig", MaxNodes: 5, MaxDepth: 4, MaxStmts: 5, Opts: 3, Ifs: 2.5, Sets: 2, Jumps: 1.5, Stops: 0.5, Lines: 3,
-		Cmds: 0.7, Calls: 0.5, VisitLine: true, Markup: 0.25, Storer: "recording"},
+		Cmds: 0.7, Calls: 0.5, VisitLine: true, Markup: 0.25, LineConds: 0.12, Storer: "recording"},
 	// lines with markup wrappers in most lines (the markup parser runs for every line of every runner)
 	"markupy": {Family: "markupy", MaxNodes: 2, MaxDepth: 2, MaxStmts: 4, Opts: 1.5, Ifs: 1, Sets: 1, Jumps: 0.8, Stops: 0.2, Lines: 5,
 		Calls: 0.3, Markup: 0.8, Storer: "recording"},
@@ -488,6 +489,11 @@ func (g *gen) lineStmt() Stmt {
 		}
 	}
 	st := Stmt{K: "line", Text: parts}
+	if g.cfg.LineConds > 0 && r.Float64() < g.cfg.LineConds {
+		st.Cond = []*Expr{eBool(false), eBool(true), g.varOf("b"), eNot(g.varOf("b")), eBin("lt", g.varOf("n"), eNum(2, 1)),
+			eBin("and", g.varOf("b"), eBool(false))}[r.Intn(6)]
+		g.c.LineCond = true
+	}
 	for i := r.Intn(3); i > 0 && r.Intn(2) == 0; i-- {
 		st.Tags = append(st.Tags, fmt.Sprintf("t%d", r.Intn(5)))
 	}
